@@ -341,7 +341,7 @@ CELLS = [1.0, 2.0, 2.0, 5.0, -3.0, 0.0, 10.0, 3.5, 'a', 'A', 'b', 'B', 'ab', 'ab
          # multi-line texts: wildcards cover line feeds too
          'Total\n2024', 'tota\n', 'a\nb',
          # error values among the cells: no order with numbers or texts
-         xl.err('#N/A'), xl.err('#DIV/0!')]
+         xl.err('#N/A'), xl.err('#DIV/0!'), xl.err('#NAME?')]
 OPS = ['=', '<>', '<', '>', '<=', '>=', '']
 
 
@@ -363,6 +363,9 @@ def criteria_for(rng, cells):
                        '<=Cat', '>10', '<>?', 'total*', 'tota?', '<>total*', 'a?b',
                        '*2024'], 6)
     out.append(rng.choice(['<>', '=']))     # a bare operator: (not) blank cells
+    # an error value as the criterion (the `?` of #NAME? is not a wildcard)
+    e = rng.choice(['#NAME?', '#N/A', '#DIV/0!', '#name?'])
+    out.append(rng.choice([xl.err(e.upper()), e, '=' + e, '<>' + e]))
     return out
 
 
